@@ -276,6 +276,8 @@ def run(shard, spec):
                     simT[kind] = sorted({o[3] for o in obs})
                     # length: smallest PC advance over the states (not-taken path), if observable
                     adv = {(o[2] - addr) & 0xFFFF for o in obs}
+                    if any(not 0 <= o[2] <= 65535 for o in obs):
+                        viol('%s simulator left PC=%s outside 0..65535 after %s at %d' % (kind, sorted({o[2] for o in obs}), bytes(b).hex(), addr), b, fill, addr)
                     simlens[kind] = adv
                     simpushed[kind] = {o[5] for o in obs if len(o) > 5}
                 seqlen_known = dlen_dis
